@@ -110,4 +110,11 @@ Section Fuel.
     tr_oneof orc e f d props ms m seen found c = r -> r <> OutOfFuel ->
     tr_oneof orc e (f + k) d props ms m seen found c = r.
   Proof. apply (le_trans_plus (fun f => tr_oneof orc e f d props ms m seen found c)). intros f0. apply level_all. Qed.
+  Theorem tr_array_more_fuel f k d item js acc r :
+    tr_array orc e f d item js acc = r -> r <> OutOfFuel -> tr_array orc e (f + k) d item js acc = r.
+  Proof. apply (le_trans_plus (fun f => tr_array orc e f d item js acc)). intros f0. apply level_all. Qed.
+
+  Theorem tr_map_more_fuel f k d item ms acc r :
+    tr_map orc e f d item ms acc = r -> r <> OutOfFuel -> tr_map orc e (f + k) d item ms acc = r.
+  Proof. apply (le_trans_plus (fun f => tr_map orc e f d item ms acc)). intros f0. apply level_all. Qed.
 End Fuel.
